@@ -12,8 +12,9 @@ PROPERTY = "C20"
 
 CORRESPONDENCE = ("gadgets (recursion/src/verifier/{quotient,periodic}.rs, pcs/fri/targets.rs selectors, "
                   "pcs/fri/verifier.rs evaluate_polynomial / circuit_exp_by_constant / query points, "
-                  "builder exp_power_of_2 / mul_many / inner_product / select / div folding) "
-                  "vs lean/P3R/Model/Gadgets.lean")
+                  "builder exp_power_of_2 / mul_many / inner_product / select / div folding; "
+                  "p3-dft TwoAdicSubgroupDft::coset_idft as called by periodic.rs::evaluate_one) "
+                  "vs lean/P3R/Model/Gadgets.lean, lean/P3R/Model/Idft.lean")
 
 
 def _read(p):
@@ -80,16 +81,27 @@ def run(ctx):
                                    "no_input": True})
     hist = rep["hist"]
     nontrivial = rep["distinct"]
+    # `idft` lines: the model recomputes the build-time coefficient vector from the column; the leading
+    # word of the model's answer says whether the theorem's hypotheses hold for the constants the Rust used
+    idft_idx = [k for k, c in enumerate(cases) if c.startswith("idft ")]
+    idft_agree = sum(1 for k in idft_idx if k < len(impl) and k < len(model) and impl[k] == model[k])
+    idft_hyp_fail = sum(1 for k in idft_idx if k < len(model) and model[k].startswith("idft hyp-fail"))
     cov = {"evaluations": rep["evaluations"], "distinct_nontrivial": nontrivial,
            "rule": "one gadget instance per case (exp_power_of_2, exp-by-constant, vanishing polynomial, selectors, "
                    "quotient recomposition, periodic column, polynomial evaluation, final query point, per-height "
                    "evaluation points) over BabyBear^4 and KoalaBear^4; sizes 2^0..2^20(+), shifts {1, GENERATOR, random}, "
                    "chunk counts 1,2,4,8 (x2 with ZK), periods 1..64, polynomial lengths 0..33(+), exponents 0..2^31(+), "
-                   "all indices for small sizes; points are random extension elements, small constants, and the special "
+                   "all indices for small sizes; every valid periodic case also carries an `idft` line (column, "
+                   "two_adic_generator(log m), m^-1, sub-coset shift and its inverse as the Rust computed them) on which the "
+                   "model recomputes the coefficient vector (P3R.Idft.cosetIdftLoop) and is compared with "
+                   "Radix2Dit::coset_idft's output; points are random extension elements, small constants, and the special "
                    "points of the domains (first/last/any coset point, 0); distinct = distinct case lines (every case "
                    "builds and runs a real circuit, so none is trivial); each is compared with p3 natively and with the model",
            "samples": rep["samples"][:6], "input_distribution": hist,
            "traces_validated_against_impl": len(impl), "disagreements_checked": disagreements,
+           "idft_coefficient_vectors_recomputed_by_model": len(idft_idx),
+           "idft_coefficient_vectors_equal_to_rust": idft_agree,
+           "idft_theorem_hypotheses_failed_on_rust_constants": idft_hyp_fail,
            "corpus_witnesses_reproduced": rep.get("corpus_witnesses_reproduced", []),
            "extracted_private_functions_from": rep.get("extracted_from"),
            "known_not_reproduced": []}
@@ -97,7 +109,7 @@ def run(ctx):
 
 
 CHECK = {
-    "lean_modules": ["P3R.Props.C20", "P3R.Witness.C20"],
+    "lean_modules": ["P3R.Props.C20", "P3R.Witness.C20", "P3R.Props.C20Idft", "P3R.Witness.C20Idft"],
     "lean_exes": ["p3r_driver_c20"],
     "theorems": [
         "P3R.C20.exp_pow2_eq", "P3R.C20.exp_by_constant_eq", "P3R.C20.exp_by_constant_zero",
@@ -107,6 +119,14 @@ CHECK = {
         "P3R.C20.periodic_eq", "P3R.C20.periodic_interpolates", "P3R.C20.periodic_eq_interpolant", "P3R.C20.horner_poly_eq",
         "P3R.C20.domain_point_eq", "P3R.C20.eval_point_eq",
         "P3R.Witness.C20.quotient_recompose_full_false", "P3R.Witness.C20.witness_falsifies_hz",
+        # build-time inverse coset DFT (P3R.Props.C20Idft): discharges `hidft`
+        "P3R.C20.orthogonality", "P3R.C20.swapLoop_eq_reverseRows", "P3R.C20.cosetIdftLoop_eq",
+        "P3R.C20.cosetIdft_interpolates", "P3R.C20.cosetIdftLoop_interpolates", "P3R.C20.cosetPoints_injective",
+        "P3R.C20.periodic_interpolates_total", "P3R.C20.periodic_eq_interpolant_total",
+        "P3R.C20.periodic_eq_interpolant_total'", "P3R.C20.periodic_on_trace_domain",
+        "P3R.Witness.C20Idft.omega_primitive", "P3R.Witness.C20Idft.coeffs_value",
+        "P3R.Witness.C20Idft.interpolates_instance", "P3R.Witness.C20Idft.interpolant_instance",
+        "P3R.Witness.C20Idft.trace_domain_instance", "P3R.Witness.C20Idft.swapLoop_odd_differs",
     ],
     "run": run,
     "trusted_base": [
@@ -119,10 +139,17 @@ CHECK = {
     "assumptions": [
         "quotient recomposition: theorem hypothesis hz (zeta is not a root of a chunk domain's vanishing polynomial when "
         "there are >= 2 chunks); violated with probability about N*|D|/|EF| for a Fiat-Shamir zeta; known finding F12",
-        "periodic columns: the inverse coset DFT runs natively at build time and is taken as given; its postcondition "
-        "(coefficients reproduce the column on the sub-coset, hypothesis hidft of periodic_eq_interpolant) is checked per case "
-        "by the harness; that p3's barycentric interpolate_coset returns the unique interpolant's value is p3's "
-        "specification (compared numerically per case); sub-coset points are pairwise distinct (hinj)",
+        "periodic columns: the inverse coset DFT (p3-dft default coset_idft: DFT, divide_by_height, row-swap loop, "
+        "coset_shift_cols) is modelled in P3R.Model.Idft and its postcondition (coefficients reproduce the column on the "
+        "sub-coset; the former hypothesis hidft) is PROVED for every period m >= 1 invertible in the field, every primitive "
+        "m-th root and every invertible shift (cosetIdft_interpolates; periodic_*_total have no hidft/hinj hypothesis); "
+        "what is still taken as given: Radix2Dit::dft_batch (bit reversal + DIT butterflies) computes the DFT it is "
+        "specified to compute (model = the defining sum) -- validated per periodic case by the `idft` correspondence line "
+        "(model-recomputed coefficient vector == Rust's) and by the harness's per-case postcondition check, which is kept; "
+        "the constants are a primitive 2^k-th root / inverses (checked per case by the driver, `idft ok`); "
+        "two_adic_generator(logN)^(2^folds) = two_adic_generator(log period) (p3; hypothesis of periodic_on_trace_domain "
+        "is stated with w = g^(2^folds)); that p3's barycentric interpolate_coset returns the unique interpolant's value "
+        "is p3's specification (compared numerically per case)",
         "index-dependent points: index bits are boolean (enforced by the decomposition that produces them); "
         "g_h = g_hMax^(2^(hMax-h)) for p3's two-adic generators (checked numerically by every case)",
         "shapes: chunks.length = domains.length, chunk length = extension degree (proof-shape validation); exponent n >= 1 "
@@ -149,5 +176,8 @@ MANIFEST_ENTRY = {
         "design_ref": "4/C20",
     },
     "level_note": "Lean kernel + 3 standard axioms; value-level models (C02 bridges expressions to values); executable "
-                  "extension-field instances unverified; the build-time iDFT is taken as given (postcondition checked per case)",
+                  "extension-field instances unverified; the build-time inverse coset DFT is modelled step by step (scale, "
+                  "row-swap loop, coset un-shift) and its interpolation postcondition proved for all m, roots, shifts "
+                  "(P3R.Props.C20Idft); only the FFT butterfly network = DFT sum is taken as given, and the model's "
+                  "coefficient vector is compared with Radix2Dit::coset_idft's on every periodic case",
 }
